@@ -1,7 +1,7 @@
 """C09 — stored documents are returned exactly: only the code tables of the doc store."""
 from .. import codetab as ct
 from ..rules import get_body, short, calls_to, site
-from ..model import Ev, must_precede, op_local, trace_back, provenance
+from ..model import Ev, must_precede, op_local, trace_back, provenance, place_local
 
 D = "tantivy::store::decompressors::Decompressor"
 SE = "tantivy::schema::document::se::BinaryValueSerializer::<'se, W>::"
@@ -15,6 +15,61 @@ def run(rep, prog, tier):
     rep.not_decided += ["skip index, block cache, compression, nested value content (values)"]
     r1(rep, prog)
     r2(rep, prog)
+    r3(rep, prog)
+
+
+def r3(rep, prog):
+    """merging the store: blocks of a source segment may be copied verbatim (stacked) only when the
+    segment has no deleted / filtered documents"""
+    R = "C09-R3"
+    rep.rule(R, "verbatim stacking of doc-store blocks happens only for source segments without deletes: every call to StoreWriter::stack is reachable only through the false arm of a test of SegmentReader::has_deletes() (or alive_bitset().is_none()) on the same reader; all other documents are copied one by one through iter_raw(alive_bitset)")
+    STACK = {"tantivy::store::writer::StoreWriter::stack"}
+    sites_ = prog.who_calls(STACK)
+    rep.floor(R, "call sites of StoreWriter::stack", len(sites_), 1)
+    HD = {"tantivy::index::segment_reader::SegmentReader::has_deletes"}
+    for body, bi, t in sites_:
+        ok = False
+        why = "no has_deletes() test controls the stacking"
+        for b, ht in body.calls():
+            if not (prog.call_targets(ht) & HD):
+                continue
+            # the switch on (a copy of) the result
+            dest = place_local(ht["dest"])
+            for sb in body.normal_blocks():
+                tt = body.term(sb)
+                if tt["k"] != "switch" or op_local(tt["on"]) is None:
+                    continue
+                src = trace_back(body, op_local(tt["on"]))
+                if not (src and src[-1][0] == "call" and src[-1][2] == b):
+                    continue
+                arms = dict((v, tg) for v, tg in tt["vals"])
+                false_t = arms.get("0")
+                true_ts = [tg for v, tg in tt["vals"] if v != "0"] + ([tt["else"]] if "0" in arms else [])
+                if false_t is None:
+                    continue
+                from_true = set()
+                for x in true_ts:
+                    from_true |= body.reachable((x,), blocked=frozenset({sb}))
+                from_false = body.reachable((false_t,), blocked=frozenset({sb}))
+                if bi in from_false and bi not in from_true:
+                    ok = True
+                    why = "stack() is reachable only when has_deletes() is false"
+                elif bi in from_true:
+                    why = "stack() is reachable on the arm where has_deletes() is true"
+        rep.check(ok, R, "%s stacks store blocks only for segments without deletes" % short(body.id), why,
+                  "`%s` can copy doc-store blocks verbatim (StoreWriter::stack) for a segment that has deleted / filtered documents (%s): the merged store then contains documents the other structures "
+                  "dropped, and every later document is fetched under the wrong id" % (body.id, why), site=site(body, bi))
+    # the slow path copies through the alive bitset
+    mb = prog.body("tantivy::indexer::merger::IndexMerger::write_storable_fields")
+    if mb is not None:
+        raws = [(b, t) for b, t in mb.calls() if t.get("f", "").endswith("StoreReader::iter_raw")]
+        refs_raw = 0
+        for r_ in prog.body_refs(mb):
+            cb = prog.body(r_)
+            if cb is not None:
+                refs_raw += len([1 for _, t in cb.calls() if t.get("f", "").endswith("StoreReader::iter_raw")])
+        rep.check(len(raws) + refs_raw >= 2, R, "the document-by-document path iterates through the alive bitset", "%d iter_raw(alive_bitset) site(s)" % (len(raws) + refs_raw),
+                  "write_storable_fields no longer copies documents through StoreReader::iter_raw(alive_bitset)", site=mb.span)
 
 
 def r1(rep, prog):
